@@ -4,7 +4,7 @@
    decoded, clock ticks); [plain s]: no eviction policy (random policy with an
    unreached limit: C20_policy_transparent). *)
 From MC Require Import Model.Base Model.Generated Model.Store Model.Memc Model.Codec Model.Handler
-  Spec.Exec Proofs.StoreLemmas Proofs.SetLemmas Proofs.MemcLemmas Proofs.Effects Proofs.PC06 Proofs.PC01.
+  Spec.Exec Proofs.StoreLemmas Proofs.SetLemmas Proofs.MemcLemmas Proofs.Effects Proofs.PC06 Proofs.PC01 Proofs.PWire.
 
 (* an acknowledged set leaves exactly (value, flags, ttl) under a non-zero CAS,
    and that is what a retrieval sees (fewer than 2^64 stores so far: 0 < s_cas) *)
@@ -59,6 +59,20 @@ Theorem C01_tick_loss : forall s k r d,
   r_ttl r <> 0 /\ r_ts r + r_ttl r <= s_now s + d.
 Proof. exact tick_loss. Qed.
 Print Assumptions C01_tick_loss.
+
+(* at the wire: a set frame carrying any key (1..250 bytes), any value within the
+   item limit, any flags, expiration, opaque and CAS decodes to exactly that
+   request and leaves exactly the bytes that follow it (the response side is
+   C11_response_parses) *)
+Theorem C01_wire_roundtrip : forall limit key value flags exp opaque cas rest,
+  blen key <> 0 -> blen key <= MAX_KEY -> 8 + blen key + blen value <= limit ->
+  8 + blen key + blen value < 4294967296 ->
+  flags < 4294967296 -> exp < 4294967296 -> opaque < 4294967296 -> cas < 18446744073709551616 ->
+  decode (new_codec limit) (set_frame cmd_Set key value flags exp opaque cas ++ rest) =
+  (new_codec limit, rest,
+   DFrame (ReqSet VSet (set_header cmd_Set key value opaque cas) flags exp key value)).
+Proof. exact decode_set_frame. Qed.
+Print Assumptions C01_wire_roundtrip.
 
 (* non-vacuity: from the initial store, an acknowledged set of arbitrary binary data *)
 Example C01_nonvacuous :
